@@ -213,6 +213,34 @@ def order_rule(R: Report, f, results) -> None:
                 R.ok("R11.2", f, anchor.where(), c, via="typestate")
 
 
+def queries_are_pure(P: Program, R: Report, rule: str) -> None:
+    from ..effects import Effects
+    from .c16 import entry_points
+
+    used: set[str] = set()
+    for f in P.functions.values():
+        if ".user_actions." not in f.qname and ".actions." not in f.qname:
+            continue
+        for c in ast.walk(f.node):
+            if isinstance(c, ast.Call) and isinstance(c.func, ast.Attribute) and norm(c.func.value).endswith("tracks"):
+                used.add(c.func.attr)
+    E = Effects(P)
+    n = 0
+    for q, root in entry_points(P):
+        if q.cls is None or q.name not in used or not any(k in q.cls.qname for k in (".data_model.",)):
+            continue
+        n += 1
+        eff = [(pa, w) for pa, k, w in E.effects_on(q, root) if k == "content"]
+        label = f"{q.short}: a query the edits consult before they have validated changes nothing"
+        if not eff:
+            R.ok(rule, q, q.node, label, via="effect-analysis")
+        else:
+            pa, w = eff[0]
+            R.fail(rule, q, w, label, f"{q.name} writes `{root}.{'.'.join(pa)}` ({w}): an edit that calls it and is then refused leaves that write behind - "
+                   "the next identical call gets a different answer (e.g. another track id)")
+    R.floor(rule, "queries consulted by the edits", n, 5)
+
+
 def run(P: Program, R: Report, tier: str) -> None:
     R.explanation = (
         "Typestate analysis (clean -> dirty) over every path of every user-action and primitive "
@@ -251,3 +279,7 @@ def run(P: Program, R: Report, tier: str) -> None:
         typestate(R, "R11.3", f, E, results, "the primitive")
     R.floor("R11.3", "primitives", len(A.primitives), 6)
     R.floor("R11.1", "obligations", len(R.obligations), 20)
+    # ---- R11.4 the queries an edit consults while it is still deciding are pure.  The typestate above treats calls such as
+    # get_next_track_id() / has_track_id_at_time() / get_track_neighbors() as reads; a query that moves a counter or fills a
+    # registry changes state BEFORE the edit has validated its arguments, and a refusal then leaves that change behind.
+    queries_are_pure(P, R, "R11.4")
